@@ -68,12 +68,18 @@ def pattern(draw, p, maxlen=64):
 def tok_case(draw, maxmax=8, maxlen=64, init="any", kinds=("obj", "char", "bytes"), delivs=("list", "gen", "cb")):
     p = draw(tok_params(maxmax, init))
     pat = draw(pattern(p, maxlen))
-    return {
+    case = {
         "pat": pat,
         "p": p,
         "kind": draw(st.sampled_from(kinds)),
         "deliv": draw(st.sampled_from(delivs)),
     }
+    if draw(st.integers(0, 3)) == 0:  # the tokenizer has been used before
+        case["pre"] = {
+            "pat": draw(pattern(p, 24)),
+            "how": draw(st.one_of(st.just("list"), st.tuples(st.just("gen"), st.integers(0, 2)).map(list))),
+        }
+    return case
 
 
 def all_params(maxmax, inits=((0, 0),), modes=MODES):
